@@ -52,6 +52,8 @@ class LambdaV(PyObj):
     def __init__(self, node, env): self.node, self.env = node, env
 class ExtMethod(PyObj):
     def __init__(self, recv, key): self.recv, self.key = recv, key
+class FlagNS(PyObj):
+    def __init__(self, name): self.name = name
 class SpecFn(PyObj):
     def __init__(self, name): self.name = name
 class TypeObj(PyObj):
@@ -106,7 +108,7 @@ class World:
     """all sidecar declarations of one property: types, classes, contracts, spec defs"""
     def __init__(self, pid):
         self.pid = pid
-        self.types = {'int': TInt, 'bool': TBool, 'str': TStr, 'float': TFloat, 'none': TNone, 'None': TNone, 'bytes': TBytes}
+        self.types = {'int': TInt, 'bool': TBool, 'str': TStr, 'float': TFloat, 'none': TNone, 'None': TNone, 'bytes': TBytes, 'flags': TFlags}
         self.classes = {}      # ref class name -> {field: type string}
         self.contracts = {}    # key -> Contract
         self.defs = {}         # spec macro name -> (params, expr string)
@@ -116,6 +118,7 @@ class World:
         self.rec_src = {}      # rec type name -> (rel, classname)
         self.class_src = {}    # ref class name -> (rel, classname)
         self.trusted = []      # free-text trusted-base entries
+        self.flag_src = {}          # flag enum name -> (rel, class, {member: int})
         self.ufunc_facts = {}
         self.builtin_alias = {}     # name in repo code -> builtin model it behaves like (e.g. OrderedSet -> set), listed as assumption
         self.hierarchies = {}       # ref class name -> rel of the module whose class hierarchy decides isinstance on it
@@ -145,6 +148,16 @@ class World:
         ty = TEnum(name, members, values, ordered=ordered, intvalued=intv)
         self.types[name] = ty; self.enum_src[name] = (rel, cls)
         return ty
+    def flagenum(self, name, rel, cls):
+        """enum.IntFlag class: values are 64-bit vectors; members read (and evaluated) from the class body"""
+        node, _ = repo.find_def(rel, cls)
+        members = {}
+        for st in node.body:
+            if isinstance(st, ast.Assign) and len(st.targets) == 1 and isinstance(st.targets[0], ast.Name) and not st.targets[0].id.startswith('_'):
+                try: members[st.targets[0].id] = int(eval(compile(ast.Expression(st.value), '<flag>', 'eval'), {'__builtins__': {}}, dict(members)))
+                except Exception: pass
+        self.flag_src[name] = (rel, cls, members); self.types[name] = TFlags
+        return members
     def rec(self, name, fields, rel=None, cls=None):
         ty = TRec(name, [(n, self.ty(t)) for n, t in fields])
         self.types[name] = ty
@@ -333,6 +346,7 @@ class Exec:
         if name in fr.get('extra', {}): return fr['extra'][name]
         if self.spec:
             if name in self.w.defs or name in self.w.ufuncs or name in SPEC_BUILTINS: return SpecFn(name)
+            if name in self.w.flag_src: return FlagNS(name)
             if name in self.w.types and name not in BUILTINS: return TypeObj(self.w.types[name])
         # enclosing function closures (state vars live in env already)
         if name in fr.get('local_funcs', {}): return fr['local_funcs'][name]
@@ -645,6 +659,7 @@ class Exec:
             if v.ty in (TInt, TBool): return vint(-coerce(v, TInt).t)
             if v.ty is TFloat: return V(TFloat, -v.t)
         if isinstance(n.op, ast.UAdd) and v.ty in (TInt, TFloat): return v
+        if isinstance(n.op, ast.Invert) and v.ty is TFlags: return V(TFlags, ~v.t)
         raise Unsupported('unary %s on %r' % (type(n.op).__name__, v.ty))
 
     def e_IfExp(self, n):
@@ -750,7 +765,11 @@ class Exec:
         except Unsupported: return False
 
     def e_BinOp(self, n):
-        a = self.val(self.eval(n.left)); b = self.val(self.eval(n.right))
+        ra = self.eval(n.left); rb = self.eval(n.right)
+        cls_like = lambda x: isinstance(x, (ClassRef, ExcClass, BuiltinRef, TypeObj)) or (isinstance(x, list) and all(isinstance(y, PyObj) for y in x))
+        if isinstance(n.op, ast.BitOr) and cls_like(ra) and cls_like(rb):
+            return (ra if isinstance(ra, list) else [ra]) + (rb if isinstance(rb, list) else [rb])      # X | Y union of classes
+        a = self.val(ra); b = self.val(rb)
         return self.binop(n.op, a, b, n)
 
     def binop(self, op, a, b, node=None):
@@ -788,6 +807,12 @@ class Exec:
                 if self.branch(y == 0, exceptional=True): self.raise_exc('ZeroDivisionError')
                 return V(TFloat, z3.ToReal(x) / z3.ToReal(y))
             raise Unsupported('int op %s' % opname)
+        if a.ty is TFlags or b.ty is TFlags:
+            x = a.t if a.ty is TFlags else z3.Int2BV(coerce(a, TInt).t, 64); y = b.t if b.ty is TFlags else z3.Int2BV(coerce(b, TInt).t, 64)
+            if opname == 'BitOr': return V(TFlags, x | y)
+            if opname == 'BitAnd': return V(TFlags, x & y)
+            if opname == 'BitXor': return V(TFlags, x ^ y)
+            raise Unsupported('flag op %s' % opname)
         if a.ty is TBool and b.ty is TBool:
             if opname == 'BitOr': return vbool(z3.Or(a.t, b.t))
             if opname == 'BitAnd': return vbool(z3.And(a.t, b.t))
@@ -851,6 +876,8 @@ class Exec:
                 if sub: return ModuleRef(obj.dotted + '.' + attr, sub)
                 raise
         if isinstance(obj, ClassRef):
+            for fn_, (frel, fcls, fmem) in self.w.flag_src.items():
+                if fcls == obj.name and attr in fmem: return V(TFlags, z3.BitVecVal(fmem[attr], 64))
             ty = self.type_for_class(obj.rel, obj.name)
             if isinstance(ty, TEnum) and attr in ty.members:
                 return V(ty, ty.const(attr))
@@ -867,6 +894,8 @@ class Exec:
                     try: return self.eval(st.value)
                     finally: self.frames = saved
             raise Unsupported('class attribute %s.%s' % (obj.name, attr))
+        if isinstance(obj, FlagNS):
+            return V(TFlags, z3.BitVecVal(self.w.flag_src[obj.name][2][attr], 64))
         if isinstance(obj, BuiltinRef): return BuiltinRef(obj.name + '.' + attr)
         if isinstance(obj, ExcV) or (isinstance(obj, V) and obj.ty is TExc):
             e = obj if isinstance(obj, ExcV) else obj.t
@@ -1182,6 +1211,10 @@ class Exec:
         raise Unsupported('constructing %r' % ty)
 
     def construct(self, cref, args, kwargs, node):
+        if any(fcls == cref.name for (frel, fcls, fmem) in self.w.flag_src.values()):
+            v = self.val(args[0])
+            if v.ty is TFlags: return v
+            return V(TFlags, z3.simplify(z3.Int2BV(coerce(v, TInt).t, 64)))
         ty = self.type_for_class(cref.rel, cref.name)
         if isinstance(ty, TEnum):
             v = self.val(args[0])
